@@ -148,8 +148,10 @@ class RecurrenceNetwork(RecurrencePlot, Network):
     def __cache_state__(self):
         #  state of BOTH parent classes (the method resolution order would
         #  otherwise hide the adjacency mutation counter of Network)
+        #  (the network part does not exist yet while the plot is built)
         return (RecurrencePlot.__cache_state__(self)
-                + Network.__cache_state__(self))
+                + (Network.__cache_state__(self)
+                   if hasattr(self, "_mut_A") else ()))
 
     def __str__(self):
         """
